@@ -51,6 +51,17 @@ type HeldRead struct {
 // Wrap returns the store to give to store.NewConfigMap.
 func (l *LateReads) Wrap(s dstore.Store) dstore.Store { return &gatedStore{Store: s, l: l} }
 
+// Stats returns how many reads were held and what the gate saw (a copy).
+func (l *LateReads) Stats() (held int, seen map[string]int) {
+	l.mu.Lock()
+	defer l.mu.Unlock()
+	seen = map[string]int{}
+	for k, v := range l.Seen {
+		seen[k] = v
+	}
+	return l.Held, seen
+}
+
 // Pending returns the number of reads currently held.
 func (l *LateReads) Pending() int {
 	l.mu.Lock()
